@@ -285,6 +285,37 @@ Definition extract_offset (base : Z) (d : list N) : M Z :=
   | inr e => fail e
   end.
 
+(* readMessageV1, the body of one loop iteration once a header is current; [again] is the
+   next iteration (`continue`) *)
+Definition v1_body (again : M (Z * Z * list N * list N)) (min : Z) : M (Z * Z * list N * list N) :=
+  f1 <- top ;;
+  let h := f_hdr f1 in
+  c <- codec_of h ;;
+  match c with
+  | Some code =>
+    lift (p_discard 4) ;;;
+    n <- lift (p_int 4) ;;
+    f2 <- top ;;
+    (if f_remain f2 <? n then fail EShort else ret tt) ;;;
+    d <- lift (p_decompress code n) ;;
+    base <- extract_offset (h_first h) d ;;
+    mark_read ;;;
+    (fun m2 => MOk tt (set_stack m2 (mkFrame d (len d) base 0 hdr0 :: m_stack m2))) ;;;
+    again
+  | None =>
+    let offset := wrap64 (h_first h + f_base f1) in
+    if offset <? min then
+      lift p_discard_bytes32 ;;;
+      lift p_discard_bytes32 ;;;
+      mark_read ;;;
+      again
+    else
+      k <- lift p_bytes32 ;;
+      v <- lift p_bytes32 ;;
+      mark_read ;;;
+      ret (offset, (if h_magic h =? 2 then 0 else h_ts h), k, v)
+  end.
+
 (* readMessageV1: (offset, timestamp, key, value) *)
 Fixpoint read_v1 (fuel : nat) (min : Z) {struct fuel} : M (Z * Z * list N * list N) :=
   fun m =>
@@ -295,35 +326,7 @@ Fixpoint read_v1 (fuel : nat) (min : Z) {struct fuel} : M (Z * Z * list N * list
     | [] => MErr EShort m
     | f :: ps =>
       if f_remain f =? 0 then read_v1 fuel' min (set_stack m ps)
-      else
-        (read_header fuel' ;;;
-         f1 <- top ;;
-         let h := f_hdr f1 in
-         c <- codec_of h ;;
-         match c with
-         | Some code =>
-           lift (p_discard 4) ;;;
-           n <- lift (p_int 4) ;;
-           f2 <- top ;;
-           (if f_remain f2 <? n then fail EShort else ret tt) ;;;
-           d <- lift (p_decompress code n) ;;
-           base <- extract_offset (h_first h) d ;;
-           mark_read ;;;
-           (fun m2 => MOk tt (set_stack m2 (mkFrame d (len d) base 0 hdr0 :: m_stack m2))) ;;;
-           read_v1 fuel' min
-         | None =>
-           let offset := wrap64 (h_first h + f_base f1) in
-           if offset <? min then
-             lift p_discard_bytes32 ;;;
-             lift p_discard_bytes32 ;;;
-             mark_read ;;;
-             read_v1 fuel' min
-           else
-             k <- lift p_bytes32 ;;
-             v <- lift p_bytes32 ;;
-             mark_read ;;;
-             ret (offset, (if h_magic h =? 2 then 0 else h_ts h), k, v)
-         end) m
+      else (read_header fuel' ;;; v1_body (read_v1 fuel' min) min) m
     end
   end.
 
